@@ -376,6 +376,29 @@ def load_known():
         return []
 
 
+class time_limit:
+    """context manager: raise TimeoutError in the main thread of this process after `seconds` (a hang of the implementation
+    becomes a reported finding instead of a check that never ends)"""
+
+    def __init__(self, seconds):
+        self.seconds = int(seconds)
+
+    def _fire(self, signum, frame):
+        raise TimeoutError('no result after %d s' % self.seconds)
+
+    def __enter__(self):
+        import signal
+        self.old = signal.signal(signal.SIGALRM, self._fire)
+        signal.alarm(self.seconds)
+        return self
+
+    def __exit__(self, *exc):
+        import signal
+        signal.alarm(0)
+        signal.signal(signal.SIGALRM, self.old)
+        return False
+
+
 def scratch_dir(prefix='nv'):
     base = os.environ.get('NAUTILUS_VERIF_SCRATCH') or tempfile.gettempdir()
     return tempfile.mkdtemp(prefix=prefix, dir=base)
